@@ -68,6 +68,7 @@
 (*         stop    ImageD11.ImageD11_thread.stop_now                       *)
 (*         touched the child changed a thread count itself (set, numba)    *)
 (*         warned  number of fork warnings raised in this process so far   *)
+(*         pbp     ImageD11.sinograms.point_by_point is in sys.modules     *)
 (*   wk    worker thread -> [pc, nwork, after, late]: pc "idle" "check"    *)
 (*         "work" "done" "dead"; the loop is the idiom of peaksearcher.py  *)
 (*         (while not self.ImageD11_stop_now(): one unit of work); after   *)
@@ -93,6 +94,9 @@
 (*   NbGet(x) NbSet(x,n) NbKernel(x)  numba.get/set_num_threads,           *)
 (*                    array_bin + array_lt                                 *)
 (*   User(x,fail)     indexing.do_index (its indexing loop raises if fail) *)
+(*   ImportPBP(x)     import ImageD11.sinograms.point_by_point (sets       *)
+(*                    OMP_NUM_THREADS=1, imports the module, calls         *)
+(*                    check_multiprocessing(patch=True))                   *)
 (*   TStart(w) TCheck(w) TWork(w) TRaise(w) StopSet  worker threads of P   *)
 (*                                                                         *)
 (* Laws (what a user relies on; decided from code, docstrings, comments    *)
@@ -135,6 +139,8 @@
 (*                   (array_bin, array_lt, numba.set_num_threads in        *)
 (*                   point_by_point) overrides OMP_NUM_THREADS and any     *)
 (*                   earlier cimaged11_omp_set_num_threads                 *)
+(*   PbpOneThread    importing point_by_point before anything else of      *)
+(*                   ImageD11 leaves the process with one OpenMP thread    *)
 (*   Restore         do_index leaves the thread count as it found it, also *)
 (*                   when the indexing loop raises; inside the loop it is 1*)
 (*   StopSticky      nothing modelled clears stop_now                      *)
@@ -193,7 +199,7 @@ Max(a, b) == IF a > b THEN a ELSE b
 
 Fresh(st, gs, eomp) ==
     [st |-> st, loaded |-> FALSE, reg |-> 0, gs |-> gs, eomp |-> eomp, pool |-> FALSE, ipool |-> FALSE,
-     nbl |-> FALSE, inbl |-> FALSE, nbreg |-> 0, stop |-> FALSE, touched |-> FALSE, warned |-> 0]
+     nbl |-> FALSE, inbl |-> FALSE, nbreg |-> 0, stop |-> FALSE, touched |-> FALSE, warned |-> 0, pbp |-> FALSE]
 
 Init == /\ env \in [cores : Cores, slurm : Slurm, omp : EnvOmp]
         /\ pr = [P |-> Fresh("alive", "none", env.omp), C |-> Fresh("none", "none", 0)]
@@ -212,7 +218,7 @@ Log(op, ret, nw, ns) ==
 
 CanStep == Len(hist) < MaxDepth
 Acts(x) == pr[x].st = "alive"
-Allowed(x, cls) == IF x = "P" THEN cls \in POps ELSE cls \in COps
+Allowed(x, cls) == CanStep /\ (IF x = "P" THEN cls \in POps ELSE cls \in COps)
 
 \* ---- the module ------------------------------------------------------------------------------
 \* check_multiprocessing(patch) executed in a process with record r
@@ -337,6 +343,21 @@ User(x, fail) ==
     /\ UNCHANGED <<env, wk, texc>>
     /\ Log(<<"user", x, "do_index", fail>>, IF fail THEN "exc:Boom" ELSE "seen:1", 0, 0)
 
+\* import ImageD11.sinograms.point_by_point (point_by_point.py:7-15): os.environ["OMP_NUM_THREADS"] = "1", then
+\* `from ImageD11 import cImageD11`, then cImageD11.check_multiprocessing(patch=True); nothing on a second import
+ImportPBP(x) ==
+    /\ Acts(x) /\ Allowed(x, "pbp")
+    /\ UNCHANGED <<env, wk, texc>>
+    /\ IF pr[x].pbp
+         THEN /\ pr' = pr
+              /\ Log(<<"pbp", x>>, "ok", 0, 0)
+         ELSE LET r0 == [pr[x] EXCEPT !.eomp = 1, !.pbp = TRUE]
+                  e1 == IF r0.loaded THEN [rec |-> r0, nw |-> 0]
+                        ELSE CheckEffect([r0 EXCEPT !.loaded = TRUE, !.reg = InitReg(r0)], x = "C", FALSE)
+                  e2 == CheckEffect(e1.rec, x = "C", TRUE)
+              IN /\ pr' = [pr EXCEPT ![x] = e2.rec]
+                 /\ Log(<<"pbp", x>>, "ok", e1.nw + e2.nw, 0)
+
 \* ---- worker threads of the parent (ImageD11_thread.py) ---------------------------------------
 TStart(w) ==
     /\ Allowed("P", "thread") /\ wk[w].pc = "idle"
@@ -370,16 +391,16 @@ StopSet(x) ==                                   \* peaksearcher.py:534,549: Imag
     /\ UNCHANGED <<env, wk, texc>>
     /\ Log(<<"stopset", x>>, "ok", 0, 0)
 
+\* every action is guarded by CanStep (through Allowed): at most MaxDepth operations
 Next ==
-    /\ CanStep
-    /\ \/ \E v \in PutVals : PutEnv(v)
-       \/ \E m \in Starts : SetStart(m)
-       \/ \E x \in Procs : Import(x) \/ Kernel(x) \/ NbGet(x) \/ NbKernel(x) \/ StopSet(x)
-       \/ \E x \in Procs, n \in SetVals : SetThreads(x, n)
-       \/ \E x \in Procs, n \in NbVals : NbSet(x, n)
-       \/ \E x \in Procs, b \in BOOLEAN : CheckMP(x, b) \/ User(x, b)
-       \/ \E h \in Hows : Launch(h)
-       \/ \E w \in Workers : TStart(w) \/ TCheck(w) \/ TWork(w) \/ TRaise(w)
+    \/ \E v \in PutVals : PutEnv(v)
+    \/ \E m \in Starts : SetStart(m)
+    \/ \E x \in Procs : Import(x) \/ Kernel(x) \/ NbGet(x) \/ NbKernel(x) \/ StopSet(x) \/ ImportPBP(x)
+    \/ \E x \in Procs, n \in SetVals : SetThreads(x, n)
+    \/ \E x \in Procs, n \in NbVals : NbSet(x, n)
+    \/ \E x \in Procs, b \in BOOLEAN : CheckMP(x, b) \/ User(x, b)
+    \/ \E h \in Hows : Launch(h)
+    \/ \E w \in Workers : TStart(w) \/ TCheck(w) \/ TWork(w) \/ TRaise(w)
 
 Spec == Init /\ [][Next]_vars
 
@@ -387,7 +408,7 @@ Spec == Init /\ [][Next]_vars
 RecOK(r) == /\ r.st \in {"none", "alive", "stuck", "dead"} /\ r.loaded \in BOOLEAN /\ r.reg \in Nat
             /\ r.gs \in Methods /\ r.eomp \in Nat /\ r.pool \in BOOLEAN /\ r.ipool \in BOOLEAN
             /\ r.nbl \in BOOLEAN /\ r.inbl \in BOOLEAN /\ r.nbreg \in Nat /\ r.stop \in BOOLEAN
-            /\ r.touched \in BOOLEAN /\ r.warned \in Nat
+            /\ r.touched \in BOOLEAN /\ r.warned \in Nat /\ r.pbp \in BOOLEAN
 TypeOK == /\ RecOK(pr.P) /\ RecOK(pr.C) /\ pr.P.st = "alive" /\ texc \in Nat
           /\ \A w \in Workers : wk[w].pc \in {"idle", "check", "work", "done", "dead"}
           /\ (pr.C.st = "none" => ~pr.C.loaded) /\ (~pr.P.loaded => pr.P.reg = 0)
@@ -402,6 +423,9 @@ SetGet == [][Stepped /\ LastOp[1] = "set" => pr'[LastOp[2]].reg = Max(LastOp[3],
 
 \* the fork warning: exactly the situations of cImageD11.py:56-57 and :70-72
 RunsCheck == LastOp[1] = "checkmp" \/ (LastOp[1] = "import" /\ ~pr[LastOp[2]].loaded)
+PbpWarns(x) == LET g == pr[x].gs                                \* two checks when the module was not loaded yet
+                   one == (IF g = "fork" THEN 1 ELSE 0) + (IF x = "C" /\ g \in {"fork", "none"} THEN 1 ELSE 0)
+               IN IF pr[x].pbp THEN 0 ELSE IF pr[x].loaded THEN one ELSE 2 * one
 WarnRule ==
     [][Stepped =>
         IF RunsCheck
@@ -410,10 +434,11 @@ WarnRule ==
                IN /\ (g \in {"spawn", "forkserver"} => Last.nw = 0)
                   /\ (g = "fork" => Last.nw = IF x = "C" THEN 2 ELSE 1)
                   /\ (g = "none" => Last.nw = 0 /\ x = "P")
+          ELSE IF LastOp[1] = "pbp" THEN Last.nw = PbpWarns(LastOp[2])
           ELSE Last.nw = 0]_vars
 
 PatchSafe ==
-    [][Stepped /\ LastOp[1] = "checkmp" /\ LastOp[2] = "P" /\ LastOp[3] = TRUE
+    [][Stepped /\ ((LastOp[1] = "checkmp" /\ LastOp[2] = "P" /\ LastOp[3] = TRUE) \/ (LastOp[1] = "pbp" /\ LastOp[2] = "P" /\ ~pr.P.pbp))
          => Last.nw > 0 \/ pr'.P.gs \in {"spawn", "forkserver"}]_vars
 
 SafeNeverStuck == pr.C.st = "stuck" => pr.C.gs = "fork"
@@ -424,6 +449,10 @@ OneThreadNeverStuck ==
 
 ChildThreadsOne ==
     [][Stepped /\ LastOp[1] = "import" /\ LastOp[2] = "C" /\ ~pr'.C.touched /\ pr'.C.eomp = 0 => pr'.C.reg = 1]_vars
+\* importing point_by_point announces one thread per process (OMP_NUM_THREADS = 1 before the runtime loads); it holds
+\* when that import is the first one of ImageD11.cImageD11 in the process, or in a child
+PbpOneThread ==
+    [][Stepped /\ LastOp[1] = "pbp" /\ ~pr[LastOp[2]].pbp /\ (~pr[LastOp[2]].loaded) => pr'[LastOp[2]].reg = 1]_vars
 
 DefaultNoHang ==
     [][Stepped /\ LastOp[1] = "kernel" /\ LastOp[2] = "C" /\ pr'.C.st = "stuck"
@@ -432,7 +461,7 @@ DefaultNoHang ==
 RegFrame ==
     [][Stepped => \A x \in Procs :
          pr'[x].reg # pr[x].reg =>
-            \/ LastOp[1] \in {"set", "import", "checkmp"} /\ LastOp[2] = x
+            \/ LastOp[1] \in {"set", "import", "checkmp", "pbp"} /\ LastOp[2] = x
             \/ LastOp[1] = "launch" /\ x = "C"]_vars
 
 Restore == [][Stepped /\ LastOp[1] = "user" => pr'[LastOp[2]].reg = pr[LastOp[2]].reg]_vars
@@ -463,4 +492,8 @@ EmitTransition == EmitMode # 1 \/ PrintT("@@" \o ToJson([env |-> env, hist |-> h
 EmitFinal == EmitMode # 2 \/ Len(hist) < MaxDepth \/ PrintT("@@" \o ToJson([env |-> env, hist |-> hist]))
 EmitUsers == Len(hist) > 0 \/ PrintT("@@" \o ToJson([users |-> Users]))
 View == <<env, pr, wk, texc, Len(hist)>>
+\* state constraint of ProcState_nbk_q.cfg (each behaviour compiles two numba kernels per process: keep them few):
+\* the parent imports first and the child is launched last
+NbkShape == /\ (Len(hist) >= 1 => hist[1].op[1] = "import")
+            /\ (pr.C.st # "none" => pr.P.nbl \/ Len(hist) = 2)
 =============================================================================
